@@ -11,7 +11,8 @@
 // each route a world offers (FindFeatureByID, FindCollectionsByFeature,
 // FindFeatures, EachFeature); Get for a menu of present and absent tag keys;
 // Reference(i); the full rendering of the features returned by FindFeatures
-// and EachFeature (not only their IDs); the world's search tokens.
+// and EachFeature (not only their IDs). World.Tokens() is observed but not
+// demanded equal (outcome class only).
 package main
 
 import (
@@ -387,15 +388,16 @@ func collectionSections(d wk.Dump, route string, id b6.FeatureID, cf b6.Collecti
 	d[route+"findvalues:"+s] = guardS(func() string {
 		var out []string
 		for _, k := range probes {
-			vs := cf.FindValues(k, nil)
-			parts := make([]string, len(vs))
-			for i, v := range vs {
-				parts[i] = anyString(v)
+			// FindValues appends to the slice it is given
+			vs := cf.FindValues(k, []interface{}{"pre"})
+			parts := make([]string, 0, len(vs))
+			if len(vs) == 0 || vs[0] != "pre" {
+				parts = append(parts, "PREFIX-LOST")
+			} else {
+				vs = vs[1:]
 			}
-			// appending to a given prefix must keep it
-			pre := cf.FindValues(k, []interface{}{"pre"})
-			if len(pre) != len(vs)+1 || anyString(pre[0]) != `s:"pre"` {
-				parts = append(parts, fmt.Sprintf("APPEND-MISMATCH(%d)", len(pre)))
+			for _, v := range vs {
+				parts = append(parts, anyString(v))
 			}
 			out = append(out, fmt.Sprintf("%s->[%s]", anyString(k), strings.Join(parts, " ")))
 		}
@@ -486,7 +488,13 @@ func (c *world) extend(d wk.Dump, w b6.World, probes probeSet) {
 	for _, f := range each {
 		route("viaeach-", f)
 	}
-	d["tokens"] = guardS(func() string {
+}
+
+// tokensOf: the world's search tokens as a sorted set. Recorded as an outcome
+// only (see Assumptions): the index of an edited world keeps the tokens of
+// replaced features and removed tags, which is not an answer about features.
+func tokensOf(w b6.World) string {
+	return guardS(func() string {
 		t := append([]string{}, w.Tokens()...)
 		sort.Strings(t)
 		return strings.Join(t, " ")
@@ -506,7 +514,7 @@ func c18Section(section string) (route, base, arg string, mine bool) {
 		return sec[:i+1], sec[i+1:], arg, true
 	}
 	switch sec {
-	case "get", "refi", "items", "findvalue", "findvalues", "tokens":
+	case "get", "refi", "items", "findvalue", "findvalues":
 		return "", sec, arg, true
 	}
 	return "", sec, arg, false
